@@ -1112,6 +1112,13 @@ def run(ctx: core.Ctx) -> None:
 
 def _indexed_worker(arg):
     i, job = arg
+    if os.environ.get('C03_TIMING') == '1':
+        import time
+
+        t0 = time.process_time()
+        res = worker(job)
+        print(f'C03_TIMING cpu={time.process_time() - t0:7.2f}s job={str(job)[:110]}', file=sys.stderr)
+        return i, res
     return i, worker(job)
 
 
